@@ -148,6 +148,9 @@ def gen_trace10(rng, tier='quick', crit_names=(), targets=()):
         algebras.append(variant_of(rng, algebras[0], tier))
     pools = [Pool(rng, a) for a in algebras]
     light = d >= 4 or any(a.get('symbolcls') == 'sympy' for a in algebras)
+    # an equal but distinct algebra object (same options): its multivectors are legal operands of the first
+    # algebra's operators and registered functions, and the key patterns are what they are
+    want_equal_copy = rng.random() < 0.25
 
     registered = []
     regs_by_alg = {}
@@ -266,6 +269,10 @@ def gen_trace10(rng, tier='quick', crit_names=(), targets=()):
                     return dict(sh, of=[nosym(x) for x in sh['of']])
                 return sh
             dsc['shapes'] = [nosym(sh) for sh in dsc['shapes']]
+    equal_copy = None
+    if want_equal_copy:
+        equal_copy = len(algebras)
+        algebras.append(copy.deepcopy(algebras[0]))
     n_ops = rng.randint(15, 60 if tier == 'quick' else 150)
     kinds_cycle = rng.sample(KINDS, rng.randint(3, len(KINDS)))
     prog = []
@@ -280,6 +287,10 @@ def gen_trace10(rng, tier='quick', crit_names=(), targets=()):
             kind = 'int'
         op = {k: v for k, v in dsc.items() if k != 'shapes'}
         op['args'] = [fill(rng, s, kind) for s in dsc['shapes']]
+        if equal_copy is not None and dsc['alg'] == 0 and rng.random() < 0.35 and \
+                (dsc['kind'] == 'reg' or (dsc['kind'] in ('bin', 'un') and dsc.get('form') == 'alg')):
+            op['args'] = [a if a.get('k') in ('num', 'same') else {'k': 'other', 'alg': equal_copy, 'of': a}
+                          for a in op['args']]
         prog.append(op)
         if regs_by_alg.get(dsc['alg']) and rng.random() < 0.01:
             prog.append({'alg': dsc['alg'], 'kind': 'register', 'fn': rng.choice(regs_by_alg[dsc['alg']])})
